@@ -608,6 +608,13 @@ func (r *Run) pick(list []*G) int {
 		if r.pctChange[r.step] {
 			list[best].prio = 1 + r.chooseSched("lowprio", 999)
 		}
+		// fairness: goroutines that spin through scheduling points without ever blocking (e.g. the
+		// generator loops after a cancel, which keep iterating over the remaining range) must not
+		// starve the others for ever - a real scheduler preempts them.  Every 2000 steps the
+		// goroutine that holds the top priority drops to a low one.
+		if r.step > 0 && r.step%2000 == 0 {
+			list[best].prio = 1 + r.chooseSched("spinprio", 999)
+		}
 		return best
 	case 3:
 		r.rr++
